@@ -411,7 +411,31 @@ func ruleImmutableNoEffect(r *Report) {
 	if n == 0 {
 		r.Bad(rule, "(*Store).Put/ErrKeyExists", fn.Pos(), "Store.Put never returns types.ErrKeyExists: immutable mode would accept updates")
 	}
-	r.Min(rule, 2)
+	// once the key matched, a success return needs the not-immutable edge
+	ev := findKeyEvidence(r.E, fn, -1, 0)
+	notImm := condEdges(fn, func(cond ssa.Value) (bool, bool) {
+		if fieldOfLoad(cond) == "Store.immutable" {
+			return false, true
+		}
+		return false, false
+	})
+	success, _ := classifyReturns(fn)
+	succ := map[ssa.Instruction]bool{}
+	for _, s := range success {
+		if isNilConst(retVal(s, 0)) {
+			succ[s] = true
+		}
+	}
+	for _, ke := range ev.edges {
+		ke := ke
+		reach, path := Search{Fn: fn, FromEdge: &ke, Target: anyOf(succ), AvoidEdges: mkEdgeSet(notImm)}.Run()
+		if reach {
+			r.BadPath(rule, "(*Store).Put/existing-key-succeeds-only-if-mutable", instrPos(lastInstr(ke.From)), "after the stored key matched, Put can return success without having found Store.immutable false: in immutable mode a Put of an existing key (e.g. with an identical value) is accepted instead of failing with ErrKeyExists", path)
+		} else {
+			r.Ok(rule, "(*Store).Put/existing-key-succeeds-only-if-mutable", instrPos(lastInstr(ke.From)), "after the key matched every success return lies behind the not-immutable edge")
+		}
+	}
+	r.Min(rule, 3)
 }
 
 // rulePoolOrder: the index consults the just-flushed pool only after the
